@@ -170,4 +170,7 @@ var ExtremeLits = []*literal.Literal{
 	MustLit(literal.Int64, int64(math.MaxInt64)), MustLit(literal.Int64, int64(math.MaxInt64-1)),
 	MustLit(literal.Int64, int64(math.MinInt64)), MustLit(literal.Int64, int64(math.MinInt64+1)),
 	MustLit(literal.Float64, 1.0000001), MustLit(literal.Float64, 1.0000002), MustLit(literal.Float64, 1e32), MustLit(literal.Float64, -1e-9),
+	// distinct floats closer than any plausible "tolerance"
+	MustLit(literal.Float64, 1e-10), MustLit(literal.Float64, 2e-10), MustLit(literal.Float64, -4e-10), MustLit(literal.Float64, 1.0000000001), MustLit(literal.Float64, 1.0000000002),
+	MustLit(literal.Float64, 1e-300), MustLit(literal.Float64, 2e-300),
 }
